@@ -12,6 +12,9 @@
 //	           seed), rand.Seed, rand.NewSource/New with a non-constant seed, crypto/rand
 //	randomid   github.com/rs/xid, github.com/google/uuid, os.Getpid, os.Hostname
 //	gostmt     `go` statements (a second thread of control)
+//	syncpool   sync.Pool literals and Get/Put (object identity depends on GC and on the P)
+//	hashseed   hash/maphash (seed drawn per process)
+//	ptrorder   uintptr(unsafe.Pointer(..)) (addresses as numbers)
 //
 // Types are resolved exactly: `go list -export -deps -json` provides the export
 // data of every dependency (compiled by the same toolchain), the listed packages
@@ -66,6 +69,9 @@ type Site struct {
 	Expr string `json:"expr"`
 	Type string `json:"type,omitempty"`
 	Line int    `json:"line"`
+	// Scope: "simulator" (must be classified) or "workload" (benchmarks, sample mains, tests: the
+	// application's own input generation -- listed, not classified)
+	Scope string `json:"scope"`
 }
 
 type Class struct {
@@ -75,8 +81,18 @@ type Class struct {
 }
 
 var defaultPatterns = []string{
-	"./amd/driver/...", "./amd/timing/...", "./amd/samples/runner/...", "./amd/emu/...", "./amd/kernels/...",
-	"./amd/insts/...", "./amd/sampling/...", "./amd/protocol/...",
+	"./amd/...",
+}
+
+// scopeOf: everything under amd/ is part of the simulator except the workloads themselves.
+func scopeOf(file string) string {
+	if strings.HasPrefix(file, "amd/benchmarks/") || strings.HasPrefix(file, "amd/tests/") {
+		return "workload"
+	}
+	if strings.HasPrefix(file, "amd/samples/") && !strings.HasPrefix(file, "amd/samples/runner/") {
+		return "workload"
+	}
+	return "simulator"
 }
 
 func fatal(f string, a ...any) {
@@ -169,6 +185,7 @@ func main() {
 			base = fmt.Sprintf("%s#%d", base, seen[base])
 		}
 		s.Key = base
+		s.Scope = scopeOf(s.File)
 	}
 
 	cls := map[string]Class{}
@@ -194,7 +211,13 @@ func main() {
 		}
 	}
 	if *outCoq != "" {
-		writeIfChanged(*outCoq, coqFile(sites, cls, npk, nfiles))
+		var simSites []Site
+		for _, x := range sites {
+			if x.Scope == "simulator" {
+				simSites = append(simSites, x)
+			}
+		}
+		writeIfChanged(*outCoq, coqFile(simSites, cls, npk, nfiles))
 	}
 	fmt.Printf("gen_nondet: %d packages, %d files, %d sites\n", npk, nfiles, len(sites))
 }
@@ -296,9 +319,23 @@ func walkFile(fset *token.FileSet, info *types.Info, dir string, af *ast.File) [
 				} else {
 					add("gostmt", fn, x, exprText(fset, x.Call.Fun), "")
 				}
+			case *ast.CompositeLit:
+				if tv, ok := info.Types[x]; ok && tv.Type != nil && isNamed(tv.Type, "sync", "Pool") {
+					add("syncpool", fn, x, "sync.Pool literal", "")
+				}
 			case *ast.CallExpr:
 				if kind, what := classifyCall(info, x); kind != "" {
 					add(kind, fn, x, what, "")
+				}
+				// uintptr(unsafe.Pointer(..)): an address becomes a number that can be compared or hashed
+				if tv, ok := info.Types[x.Fun]; ok && tv.IsType() && len(x.Args) == 1 {
+					if b, ok := tv.Type.Underlying().(*types.Basic); ok && b.Kind() == types.Uintptr {
+						if at, ok := info.Types[x.Args[0]]; ok && at.Type != nil {
+							if ab, ok := at.Type.Underlying().(*types.Basic); ok && ab.Kind() == types.UnsafePointer {
+								add("ptrorder", fn, x, "uintptr(unsafe.Pointer)", "")
+							}
+						}
+					}
 				}
 			}
 			return true
@@ -367,6 +404,17 @@ func classifyCall(info *types.Info, call *ast.CallExpr) (string, string) {
 		return "random", full
 	case "crypto/rand":
 		return "random", full
+	case "hash/maphash":
+		return "hashseed", full // per-process random seed of the runtime's hash functions
+	case "sync":
+		if isMethod && recvName(sig) == "Pool" {
+			return "syncpool", full // which object Get returns depends on GC and on the P
+		}
+	case "runtime":
+		if !isMethod && (name == "NumCPU" || name == "GOMAXPROCS" || name == "NumGoroutine") {
+			return "randomid", full
+		}
+	case "reflect2":
 	case "github.com/rs/xid", "github.com/google/uuid":
 		if !isMethod && strings.HasPrefix(name, "New") {
 			return "randomid", full
@@ -385,6 +433,14 @@ func classifyCall(info *types.Info, call *ast.CallExpr) (string, string) {
 		}
 	}
 	return "", ""
+}
+
+func isNamed(t types.Type, pkg, name string) bool {
+	if p, ok := t.(*types.Pointer); ok {
+		t = p.Elem()
+	}
+	n, ok := t.(*types.Named)
+	return ok && n.Obj().Pkg() != nil && n.Obj().Pkg().Path() == pkg && n.Obj().Name() == name
 }
 
 func calleeIn(info *types.Info, call *ast.CallExpr, pkgs ...string) (string, bool) {
@@ -481,6 +537,12 @@ func kindCtor(k string) string {
 		return "KRandomId"
 	case "gostmt":
 		return "KGoStmt"
+	case "syncpool":
+		return "KSyncPool"
+	case "hashseed":
+		return "KHashSeed"
+	case "ptrorder":
+		return "KPtrOrder"
 	}
 	fatal("unknown kind %s", k)
 	return ""
